@@ -51,6 +51,27 @@ RankBuckets(h, k) ==
       hi == CHOOSE j \in rev : \A x \in rev : j >= x          \* walking downwards
   IN IF n = 0 THEN {} ELSE {q[lo].b, q[hi].b}
 
+\* Span layouts.  A histogram may carry buckets that are present in its spans with a count of 0
+\* (they survive in stored samples; only arithmetic compacts them away).  Such buckets hold no
+\* observation, so they never hold a rank and must not change any answer: every record names three
+\* layouts of the same histogram -- no empty bucket, empty buckets just outside the populated range
+\* of each side, and additionally every empty bucket inside it -- and all predictions apply to each.
+MinS(S) == CHOOSE x \in S : \A y \in S : x <= y
+MaxS(S) == CHOOSE x \in S : \A y \in S : x >= y
+PopIdx(f) == {i \in IDX : f[i] > 0}
+OuterPad(h, f) ==
+  LET P == PopIdx(f) IN
+  IF P = {} THEN {}
+  ELSE IF h.k = "cb" THEN {u \in CBKeys(h.cv) \ P : u < MinS(P) \/ u > MaxS(P)}
+  ELSE {i \in {MinS(P) - 1, MaxS(P) + 1} : i \in IDX /\ Bound(i, h.s) > h.zt}
+InnerPad(h, f) ==
+  LET P == PopIdx(f) IN
+  IF P = {} THEN {}
+  ELSE {i \in (IF h.k = "cb" THEN CBKeys(h.cv) ELSE IDX) : MinS(P) < i /\ i < MaxS(P) /\ f[i] = 0}
+Layouts(h) == <<[p |-> {}, n |-> {}],
+                [p |-> OuterPad(h, h.p), n |-> OuterPad(h, h.n)],
+                [p |-> OuterPad(h, h.p) \cup InnerPad(h, h.p), n |-> OuterPad(h, h.n) \cup InnerPad(h, h.n)]>>
+
 \* rank buckets never move downwards when q grows (so a quantile inside them cannot decrease by more
 \* than the width of one bucket; inside one bucket the interpolation is the code's business)
 RECURSIVE Pos(_, _, _)
@@ -77,6 +98,7 @@ QRec(h) == [op |-> "Query", H |-> J(h),
             cnt |-> h.cnt, sum |-> h.sum,          \* histogram_count / histogram_sum (and their ratio for _avg)
             ranks |-> [k \in 0..QDen |-> RankBuckets(h, k)],
             qden |-> QDen,
+            layouts |-> Layouts(h),                \* buckets present with count 0, per layout
             bounds |-> QBounds(h)]
 
 \* classic bucket sets: one cumulative count per upper bound and for +Inf, in any order of magnitude
